@@ -62,6 +62,7 @@ TAGS = {
     42: 'first order absorption: 1/KA is not MAT',
     43: 'zero order absorption: duration/2 is not MAT',
     44: 'number of transit compartments / rates differs from the request',
+    48: 'set_iiv_on_ruv statements differ from the hand model (eps := eps*exp(eta) in every statement)',
     46: '_update_numerators differs from the hand model (numerator of every detected transit rate := their number)',
     45: 'transit/absorption rate is not the documented constant (n/MDT, 1/MAT, 2*MAT) built by the code',
     51: 'allometry: parameter is not P*(X/Z)**T',
@@ -81,7 +82,7 @@ TAGS = {
     90: 'the implementation raised an exception on a documented call',
     91: 'the implementation refused (ValueError/NotImplementedError) a valid documented request',
 }
-CORR = (1, 2, 3, 5, 6, 7, 8, 9, 10, 46)
+CORR = (1, 2, 3, 5, 6, 7, 8, 9, 10, 46, 48)
 # oracle tag -> finding id that may excuse it (only when listed open) ; guard tag that must be present
 ORACLE_FINDING = {13: ('C09-COV-ADD-NOT-NEUTRAL', 201), 23: ('C09-IIV-EXP-ADD-NOT-NEUTRAL', 202),
                   24: ('C09-IIV-LOGIT-NOT-NEUTRAL', 202), 25: ('C09-IIV-RELOG-NOT-NEUTRAL', 202),
@@ -538,8 +539,9 @@ def build_ruv(spec, rng):
     for e in envs:
         if 'TIME' in e:
             e['TIME'] = rng.choice([F(0), F(1, 2), F(2), F(5)])
-    term = "(CRuv (mkRuv %s\n %s\n %s %s\n %s %s))" % (
-        before_t, after_t, names.p('Y'), eps_t, ct.lst([names.p(s) for s in syms]), envs_term(envs, names))
+    pairs_t = ct.lst([ct.pair(names.p(e), names.p('ETA_RV1')) for e in old_eps]) if what == 'iiv_on_ruv' else '[]'
+    term = "(CRuv (mkRuv %s\n %s\n %s %s\n %s %s %s))" % (
+        before_t, after_t, names.p('Y'), eps_t, ct.lst([names.p(s) for s in syms]), envs_term(envs, names), pairs_t)
     return term, {'kind': 'ruv', 'what': what}
 
 
